@@ -360,8 +360,13 @@ class HistoryGen:
     def settings(self, maxn=3, profile=None):
         return gen_settings(self.rng, profile or self.profile, maxn)
 
+    LEN_CAP = 160
+
     def vals(self):
-        return self.ex.idx_of((self.L.AnsiString, self.L.AnsiStr))
+        # values that grew too long (a += a repeatedly, replace with the receiver) are not used as
+        # receivers any more: observation cost is quadratic in the length
+        return [i for i in self.ex.idx_of((self.L.AnsiString, self.L.AnsiStr))
+                if len(self.ex.pool[i].base_str) <= self.LEN_CAP]
 
     def pick_val(self, prefer_styled=True):
         idxs = self.vals()
@@ -378,7 +383,7 @@ class HistoryGen:
         """pool ref or a literal str"""
         rng = self.rng
         r = rng.random()
-        idxs = list(range(len(self.ex.pool)))
+        idxs = [i for i, v in enumerate(self.ex.pool) if len(v) <= self.LEN_CAP]
         if r < 0.75 and idxs:
             i = rng.choice(idxs[-8:]) if rng.random() < 0.6 else rng.choice(idxs)
             v = self.ex.pool[i]
